@@ -79,6 +79,11 @@ Definition delete (t : tuple) (xid : N) : tuple :=
   {| t_xmin := t_xmin t; t_xmax := Some xid; t_version := t_version t; t_keys := t_keys t;
      t_vals := t_vals t; t_deltas := t_deltas t |}.
 
+(** [Tuple::undelete]: VACUUM erases a delete that was rolled back. *)
+Definition undelete (t : tuple) : tuple :=
+  {| t_xmin := t_xmin t; t_xmax := None; t_version := t_version t; t_keys := t_keys t;
+     t_vals := t_vals t; t_deltas := t_deltas t |}.
+
 Fixpoint take_needed (oldest : N) (ds : list delta) : list delta :=
   match ds with
   | [] => []
